@@ -912,10 +912,19 @@ def r4_refs_resolve(ctx):
             kk = m.flow.origins(g, kop)
             rng = sorted(a[1] for a in kk.aggs if a[0] == "openapiv3::StatusCode")
             cls = set()
-            for a in g.slice(kop).atoms:
+            ksl = g.slice(kop)
+            for a in ksl.atoms:
                 if a[0] == "lit" and a[2] in ("u16", "u8", "u32", "i32", "usize"):
                     try:
                         cls.add("%sxx" % __import__("json").loads(a[1])["int"])
+                    except Exception:
+                        pass
+                # `for class in CLASSES { responses.insert(Range(class), ..) }` over a constant array: the driver renders the
+                # array's elements, and the insert sits in the body of the loop over all of them
+                elif a[0] in ("lit", "const") and ksl.has_call(r"Iterator::next$"):
+                    try:
+                        for e in (__import__("json").loads(a[1 if a[0] == "lit" else 2]) or {}).get("list") or []:
+                            cls.add("%sxx" % e["int"])
                     except Exception:
                         pass
             if rng == ["Range"]:
